@@ -15,7 +15,8 @@ LEAN_MODULE = "Kio.Props.C16"
 THEOREMS = ["Kio.C16.fields", "Kio.C16.class_vars", "Kio.C16.classes", "Kio.C16.header_rule",
             "Kio.C16.nullability_partial", "Kio.C16.primarr_nullable_witness", "Kio.C16.version_range",
             "Kio.C16.pinned_agree", "Kio.C16.coherent", "Kio.C16.bytes_follow_spec", "Kio.C16.defaults",
-            "Kio.C16.supported_names_distinct", "Kio.C16.pinned_supported", "Kio.C16.resolve_prim_observed",
+            "Kio.C16.supported_names_distinct", "Kio.C16.pinned_supported", "Kio.C16.resolve_prim_observed", "Kio.C16.generates",
+            "Kio.Gen.CounterSucc.module_succeeds_needs_acyclic",
             "Kio.Gen.CounterCoh.module_defaults_needs_membersOk"]
 EXTRA_TRUSTED = ["the text-emission and pydantic layers of codegen are modelled at descriptor level only; "
                  "`Supported` is my delimitation of the supported subset"]
